@@ -2,7 +2,7 @@
 """Apply each deliberate break (mutants/*.diff, seeded/*/patch.diff) to a scratch worktree of /repo, run the pinned
 tests there (must stay green) and the quick check of the targeted property (must exit 1 with a VIOLATION line).
 
-usage: tools/selftest.py [--tests] [--thorough] [--write [--merge]] [name-substring ...]
+usage: tools/selftest.py [--tests] [--thorough] [--jobs=N] [--write [--merge]] [name-substring ...]
 """
 import json
 import os
@@ -15,6 +15,7 @@ import shutil
 
 VERIF = pathlib.Path(__file__).resolve().parent.parent
 REPO = "/repo"
+GIT_LOCK = __import__("threading").Lock()
 
 
 def sh(cmd, **kw):
@@ -47,27 +48,28 @@ def main():
     patches = sorted(VERIF.glob("mutants/*.diff")) + sorted(VERIF.glob("seeded/*/patch.diff"))
     if args:
         patches = [p for p in patches if any(a in str(p) for a in args)]
-    rows = []
-    for patch in patches:
+    def one(patch):
+        rows = []
         name = patch.stem if patch.name != "patch.diff" else "seeded/" + patch.parent.name
         if not targets(patch):
             print(f"{name:55s} -   skipped (no target property / neutralised)", flush=True)
             rows.append((name, "-", "neutralised"))
-            continue
+            return rows
         wt = tempfile.mkdtemp(prefix="pyrefact-mut-")
         os.rmdir(wt)
-        r = sh(f"git -C {REPO} worktree add -q --detach {wt} HEAD")
+        with GIT_LOCK:
+            r = sh(f"git -C {REPO} worktree add -q --detach {wt} HEAD")
         try:
             if r.returncode:
                 rows.append((name, "-", "worktree failed: " + r.stdout[-200:]))
-                continue
+                return rows
             body = "\n".join(l for l in patch.read_text().splitlines() if not l.startswith("# ")) + "\n"
             r = subprocess.run(["git", "-C", wt, "apply", "--whitespace=nowarn", "-"], input=body, text=True,
                                stdout=subprocess.PIPE, stderr=subprocess.STDOUT)
             if r.returncode:
                 rows.append((name, "-", "patch does not apply: " + r.stdout[-300:]))
                 print(f"{name:55s} -   PATCH DOES NOT APPLY to the current HEAD (regenerate it)", flush=True)
-                continue
+                return rows
             tests = "skipped"
             if run_tests:
                 t = sh(f"cd {wt} && PYTHONPATH={wt} /venv/bin/python -m pytest -q -p no:cacheprovider --timeout=900 -x 2>&1 | tail -1")
@@ -81,8 +83,15 @@ def main():
                 rows.append((name, prop, f"{status} tests={tests} {' '.join(kinds)[:120]}"))
                 print(f"{name:55s} {prop} {status} tests={tests} {' '.join(kinds)[:100]}", flush=True)
         finally:
-            sh(f"git -C {REPO} worktree remove --force {wt}")
+            with GIT_LOCK:
+                sh(f"git -C {REPO} worktree remove --force {wt}")
             shutil.rmtree(wt, ignore_errors=True)
+        return rows
+
+    jobs = next((int(a.split('=')[1]) for a in sys.argv if a.startswith('--jobs=')), 1)
+    import concurrent.futures
+    with concurrent.futures.ThreadPoolExecutor(jobs) as ex:
+        rows = [r for rs in ex.map(one, patches) for r in rs]
     # restore evidence written by mutant runs is the caller's business (evidence is rewritten by the next real run)
     if "--write" in sys.argv:
         out = []
